@@ -329,6 +329,9 @@ class RetryExecutor(CanCustomizeBind, Executor):
                     )
                 except Exception as ex:  # pylint: disable=broad-except
                     error = ex
+                    # Keep the job visible until the future has been failed
+                    # below, so that a concurrent cancel() still finds it.
+                    self._append_job(job)
                 else:
                     job.future.delegate_future = delegate_future
 
@@ -350,6 +353,7 @@ class RetryExecutor(CanCustomizeBind, Executor):
             # The job is gone, so fail the future rather than leaving it pending
             # forever with nothing behind it.
             copy_exception(job.future, error)
+            self._pop_job(job)
             raise error
 
         delegate_future.add_done_callback(self._delegate_callback)
